@@ -128,6 +128,14 @@ def run(ctx, chk, tier):
                         seen_fb = True
                         j = loops[0][1].items[0]
                         inner = fb[0]
+                        ite_guard = None
+                        if isinstance(elt, App) and elt.fn == "ite" and len(elt.args) == 3:
+                            # conditional-expression form: `sol if len(sol) > 0 else [fallback]` (or the mirrored test)
+                            c_, a_, b_ = elt.args
+                            if isinstance(b_, Tup) and len(b_.items) == 1 and b_.items[0] == inner and "argmin(" not in a_.key:
+                                elt, ite_guard = b_, (c_, False)
+                            elif isinstance(a_, Tup) and len(a_.items) == 1 and a_.items[0] == inner and "argmin(" not in b_.key:
+                                elt, ite_guard = a_, (c_, True)
                         wrapped = isinstance(elt, Tup) and len(elt.items) == 1 and elt.items[0] == inner
                         if not wrapped:
                             chk.unknown("R17.1", "%s: fallback element %s is not a one-element list of a scalar" % (tag, show(elt, 120)))
@@ -137,7 +145,13 @@ def run(ctx, chk, tier):
                                 chk.hold("R17.1", "%s:fallback-rank" % tag, "fallback entry is a one-element list of a rank-0 value")
                             else:
                                 chk.violation("R17.1", Q, "%s:fallback-rank" % tag, "rank %s value %s" % (r, show(inner, 160)), "rank 0", ctx.where(Q))
-                            check_fallback(ctx, chk, tag, inner, j, o, y2d, t2d)
+                            if ite_guard is not None:
+                                import copy as _copy
+                                o2 = _copy.copy(o)
+                                o2.pc = list(o.pc) + [ite_guard]
+                                check_fallback(ctx, chk, tag, inner, j, o2, y2d, t2d)
+                            else:
+                                check_fallback(ctx, chk, tag, inner, j, o, y2d, t2d)
             if trank == 0 and o is rets[0]:
                 v = o.value
                 txt = v.key if hasattr(v, "key") else repr(v)
@@ -229,7 +243,8 @@ def crossing_rules(ctx, chk, tag, e, loop, A_, B_, t2d, Tt):
     tk = App("getitem", (t1, tind))
     la = div(sub(tk, yj), sub(yj1, yj))
     want = add(mul(sub(Const(1), la), xj), mul(la, xj1))
-    if same(e["value"], want):
+    from ..terms import subst
+    if same(subst(e["value"], {}), subst(want, {})):
         chk.hold("R17.3", tag + ":interpolation", "z = (1-la) x_j + la x_j+1, la = (t - y_j)/(y_j+1 - y_j)  (solves the interpolant on segment j)")
     else:
         chk.violation("R17.3", Q, tag + ":interpolation", show(e["value"], 300), show(want, 300), ctx.where(Q))
